@@ -257,6 +257,12 @@ def attemptStep (f : Facts) (content : Bytes) (maxAttempts : Nat) (s : PState) (
   else
     afterLoop maxAttempts s (peersLoop H f content (decide (s.attempt > 1)) s.rep s.cnt peers)
 
+/-- final-path contents seen by the cleanup `Delete`s of one attempt (driver only) -/
+def attemptDels (f : Facts) (content : Bytes) (s : PState) (peers : List Outcome) : List (Option Bytes) :=
+  if s.st ≠ .running then []
+  else if present f content.length s.rep then []
+  else peersDels H f content (decide (s.attempt > 1)) s.rep peers
+
 /-- a whole `processEntry` call driven by a script (one peer-outcome list per attempt) -/
 def runProc (f : Facts) (content : Bytes) (maxAttempts : Nat) : PState → List (List Outcome) → PState
   | s, [] => s
